@@ -288,6 +288,9 @@ pub struct NatSpec {
     /// translated source address index / port
     pub new_src: u16,
     pub new_sport: Option<u16>,
+    /// the device translates back to the original source (second half of a twice-NAT pair)
+    #[serde(default)]
+    pub restore: bool,
 }
 
 #[derive(Clone, Debug, PartialEq, Eq, Serialize, Deserialize)]
